@@ -17,16 +17,29 @@ import (
 
 const verifDir = "/verif"
 
+// LockEntry describes one obligation *group*: all obligations of a function with the same kind and the same
+// normalised source text. Groups (not ordinals) are compared at check time, so adding or removing an
+// unrelated occurrence of the same expression does not shift identities.
 type LockEntry struct {
-	Status string `json:"status"` // discharged | undecided | finding
-	Reason string `json:"reason,omitempty"`
-	Ms     int64  `json:"ms,omitempty"`
+	Discharged int    `json:"discharged"`
+	Undecided  int    `json:"undecided"`
+	Finding    bool   `json:"finding,omitempty"`
+	Reason     string `json:"reason,omitempty"`
 }
 
 type LockFile struct {
 	Note       string                           `json:"note"`
 	Properties map[string]map[string]*LockEntry `json:"properties"`
 }
+
+func groupOf(id string) string {
+	if k := strings.LastIndex(id, "#"); k > 0 {
+		return id[:k]
+	}
+	return id
+}
+
+func funcKindOf(o *Obligation) string { return o.Func + "#" + o.Kind }
 
 func lockPath() string { return filepath.Join(verifDir, "contracts", "LOCK.json") }
 
@@ -218,20 +231,24 @@ func cmdRelock(args []string) int {
 		ent := map[string]*LockEntry{}
 		nd := 0
 		for _, o := range br.obls {
-			e := &LockEntry{Ms: o.Ms}
+			g := groupOf(o.ID)
+			e := ent[g]
+			if e == nil {
+				e = &LockEntry{}
+				ent[g] = e
+			}
 			if o.lockOK {
-				e.Status = "discharged"
+				e.Discharged++
 				nd++
 			} else {
-				e.Status = "undecided"
+				e.Undecided++
 				e.Reason = o.Status
 				for _, f := range findings {
-					if f.Kind == "finding" && f.Property == p && f.Obligation == o.ID {
-						e.Status = "finding"
+					if f.Kind == "finding" && f.Property == p && groupOf(f.Obligation) == g {
+						e.Finding = true
 					}
 				}
 			}
-			ent[o.ID] = e
 		}
 		lf.Properties[p] = ent
 		fmt.Printf("%s: %d obligations, %d locked as discharged, %d functions, %d out of subset\n", p, len(br.obls), nd, br.nFuncs, len(br.outOfSubset))
@@ -347,32 +364,42 @@ func cmdCheck(args []string) int {
 	br := w.buildProperty(*prop)
 	findings := loadFindings()
 
-	byID := map[string]*Obligation{}
+	groups := map[string][]*Obligation{}
 	for _, o := range br.obls {
-		byID[o.ID] = o
+		groups[groupOf(o.ID)] = append(groups[groupOf(o.ID)], o)
 	}
 	var toSolve []*Obligation
 	var newObls []*Obligation
-	var baselineUndecided []string
-	for _, o := range br.obls {
-		e := locked[o.ID]
+	baselineUndecided := 0
+	var baselineUndecidedSample []string
+	for g, os := range groups {
+		e := locked[g]
 		switch {
 		case e == nil:
-			newObls = append(newObls, o)
-			toSolve = append(toSolve, o)
-		case e.Status == "discharged" || e.Status == "finding":
-			toSolve = append(toSolve, o)
+			newObls = append(newObls, os...)
+			toSolve = append(toSolve, os...)
+		case e.Discharged > 0 || e.Finding:
+			toSolve = append(toSolve, os...)
 		default:
-			baselineUndecided = append(baselineUndecided, o.ID)
+			baselineUndecided += len(os)
+			if len(baselineUndecidedSample) < 10 {
+				baselineUndecidedSample = append(baselineUndecidedSample, g)
+			}
 			if *tier == "thorough" {
-				toSolve = append(toSolve, o)
+				toSolve = append(toSolve, os...)
 			}
 		}
 	}
+	sort.Slice(toSolve, func(i, j int) bool { return toSolve[i].ID < toSolve[j].ID })
+	sort.Strings(baselineUndecidedSample)
 	var missing []string
-	for id, e := range locked {
-		if byID[id] == nil && e.Status == "discharged" {
-			missing = append(missing, id)
+	lostFK := map[string]bool{} // func#kind pairs that lost a discharged group
+	for g, e := range locked {
+		if groups[g] == nil && e.Discharged > 0 {
+			missing = append(missing, g)
+			if k := strings.Index(g, ":"); k > 0 {
+				lostFK[g[:k]] = true
+			}
 		}
 	}
 	sort.Strings(missing)
@@ -382,10 +409,10 @@ func cmdCheck(args []string) int {
 		opts.all = true
 	}
 	SolveAll(toSolve, opts, 16)
-	// second chance for locked obligations that did not come back in time (load spikes, seeds)
+	// second chance for obligations of locked groups that did not come back in time (load spikes, seeds)
 	var retry []*Obligation
 	for _, o := range toSolve {
-		if e := locked[o.ID]; e != nil && e.Status == "discharged" && !discharged(o) && o.Status != "sat" && o.Status != "unsat" {
+		if e := locked[groupOf(o.ID)]; e != nil && e.Discharged > 0 && !discharged(o) && o.Status != "sat" && o.Status != "unsat" {
 			retry = append(retry, o)
 		}
 	}
@@ -404,12 +431,12 @@ func cmdCheck(args []string) int {
 	var samples []any
 	var undecidedNew []string
 	var knownPrinted []string
+	os.RemoveAll(filepath.Join(verifDir, "replays", *prop))
 	os.MkdirAll(filepath.Join(verifDir, "replays", *prop), 0o755)
 	report := func(o *Obligation, why string) {
-		// known finding?
 		for _, f := range findings {
-			if f.Kind == "finding" && f.Property == *prop && f.Obligation == o.ID {
-				line := fmt.Sprintf("KNOWN-FINDING: property=%s %s [%s]", *prop, f.Text, o.ID)
+			if f.Kind == "finding" && f.Property == *prop && groupOf(f.Obligation) == groupOf(o.ID) {
+				line := fmt.Sprintf("KNOWN-FINDING: property=%s %s [%s]", *prop, f.Text, groupOf(o.ID))
 				fmt.Println(line)
 				knownPrinted = append(knownPrinted, line)
 				return
@@ -430,43 +457,82 @@ func cmdCheck(args []string) int {
 	}
 	for _, o := range toSolve {
 		solverMs += o.Ms
-		e := locked[o.ID]
-		if e != nil && e.Status == "discharged" {
-			nLocked++
+	}
+	var gnames []string
+	for g := range groups {
+		gnames = append(gnames, g)
+	}
+	sort.Strings(gnames)
+	// 1. locked groups: the number of discharged members must not drop while undischarged members appear
+	for _, g := range gnames {
+		e := locked[g]
+		if e == nil || (e.Discharged == 0 && !e.Finding) {
+			continue
+		}
+		os := groups[g]
+		var und []*Obligation
+		d := 0
+		for _, o := range os {
 			if discharged(o) {
-				nDischarged++
+				d++
 				byBackend[o.Solver]++
 				if len(samples) < 8 {
 					samples = append(samples, map[string]any{"obligation": o.ID, "at": o.Pos, "solver": o.Solver, "ms": o.Ms, "query_bytes": len(o.Query(false))})
 				}
 			} else {
+				und = append(und, o)
+			}
+		}
+		want := e.Discharged
+		if len(os) < e.Discharged+e.Undecided {
+			// occurrences were removed from the code: expect proportionally fewer
+			want = e.Discharged - (e.Discharged + e.Undecided - len(os))
+			if want < 0 {
+				want = 0
+			}
+		}
+		nLocked += want
+		if d >= want {
+			nDischarged += want
+		} else {
+			nDischarged += d
+		}
+		extra := len(und) - e.Undecided
+		if d < want && extra > 0 {
+			for i, o := range und {
+				if i >= extra && e.Discharged+e.Undecided >= len(os) {
+					break
+				}
 				report(o, "obligation discharged on the unchanged tree is no longer discharged")
 			}
-			continue
-		}
-		if e != nil && e.Status == "finding" {
-			if !discharged(o) {
+			if k := strings.Index(g, ":"); k > 0 {
+				lostFK[g[:k]] = true
+			}
+		} else if e.Finding && len(und) > 0 {
+			for _, o := range und {
 				report(o, "known finding")
 			}
+		}
+	}
+	// 2. new groups: a violation needs a replayed counterexample (entry functions), or a solver model for an
+	// obligation that replaces a proved one of the same kind in the same function
+	for _, o := range newObls {
+		if discharged(o) {
 			continue
 		}
-		if e == nil {
-			if discharged(o) {
-				continue
-			}
-			// new obligation: violation only with a replayed counterexample
-			if o.Status == "sat" && o.Expect != "sat" && w.isEntry(o.Func) {
+		if o.Status == "sat" && o.Expect != "sat" {
+			if w.isEntry(o.Func) {
 				if rr := tryReplay(w, o); rr != nil && rr.Reproduced {
 					report(o, "new obligation with a counterexample that replays on the real code")
 					continue
 				}
 			}
-			undecidedNew = append(undecidedNew, o.ID+" ["+o.Status+"]")
-			fmt.Printf("UNDECIDED property=%s obligation=%q status=%s\n", *prop, o.ID, o.Status)
 		}
+		undecidedNew = append(undecidedNew, o.ID+" ["+o.Status+"]")
+		fmt.Printf("UNDECIDED property=%s obligation=%q status=%s\n", *prop, o.ID, o.Status)
 	}
 	for _, id := range missing {
-		fmt.Printf("MISSING property=%s obligation=%q (function or expression no longer present; not a violation)\n", *prop, id)
+		fmt.Printf("MISSING property=%s obligation-group=%q (function or expression no longer present; not a violation by itself)\n", *prop, id)
 	}
 	for _, u := range br.outOfSubset {
 		fmt.Printf("OUT-OF-SUBSET %s\n", u)
@@ -491,8 +557,8 @@ func cmdCheck(args []string) int {
 		"functions":                br.nFuncs,
 		"by_backend":               byBackend,
 		"solver_time_s":            float64(solverMs) / 1000,
-		"baseline_undecided":       len(baselineUndecided),
-		"baseline_undecided_sample": head(baselineUndecided, 10),
+		"baseline_undecided":       baselineUndecided,
+		"baseline_undecided_sample": baselineUndecidedSample,
 		"new_obligations":          len(newObls),
 		"new_undecided":            undecidedNew,
 		"missing_locked":           missing,
@@ -508,7 +574,7 @@ func cmdCheck(args []string) int {
 	os.MkdirAll(filepath.Join(verifDir, "evidence"), 0o755)
 	os.WriteFile(filepath.Join(verifDir, "evidence", *prop+".json"), b, 0o644)
 	fmt.Printf("govc: %s %s: %d/%d locked obligations discharged, %d baseline-undecided (not claimed), %d new, %d functions, %.1fs\n",
-		*prop, *tier, nDischarged, nLocked, len(baselineUndecided), len(newObls), br.nFuncs, time.Since(t0).Seconds())
+		*prop, *tier, nDischarged, nLocked, baselineUndecided, len(newObls), br.nFuncs, time.Since(t0).Seconds())
 	if violations > 0 {
 		return 1
 	}
